@@ -87,6 +87,17 @@ PutRule == [][ev'.op = "put" =>
                  q' = IF Len(q) < cap THEN Append(q, ev'.a[1])
                       ELSE IF ovr THEN Append(Tail(q), ev'.a[1]) ELSE q]_<<vars, ev>>
 
+(* Unbounded capacities: RingBufferAbs.tla keeps cap/head/tail/override and the queue length; Apalache shows the
+   size/empty/full agreement inductive there for every capacity.  RefinesAbs: every step of this module is a step
+   of the abstraction (checked by TLC on the bounded model). *)
+Abs == INSTANCE RingBufferAbs WITH cap <- cap, head <- head, tail <- tail, ovr <- ovr, n <- Len(q)
+RefinesAbs == [][CASE ev'.op = "put" -> Abs!Put
+                   [] ev'.op = "get" -> Abs!Get
+                   [] ev'.op = "clear" -> Abs!Clear
+                   [] ev'.op = "override" -> Abs!Override
+                   [] ev'.op = "init" -> cap' >= 1 /\ head' = 0 /\ tail' = cap' /\ ovr' = FALSE /\ q' = <<>>
+                   [] OTHER -> UNCHANGED vars]_<<vars, ev>>
+
 Key == ToString(vars)
 View == vars
 EmitAll == EmitEdge(Key, ToString(<<cap', ty', head', tail', data', ovr', q'>>), ev')
